@@ -863,3 +863,49 @@ def c12(M, ctx):
         if st["t"] > 0:
             ctx.cover("pert-at-later-step")
     ctx.nontrivial = len(M.obs.steps) >= 2 and len(M.edges) >= 1
+
+
+# ----------------------------------------------------------------------------------------------- C11 (integration)
+def rule_key(M, rule, U, i, t):
+    """Documented priority key of task i under `rule` at the allocation of step t (smaller = higher priority)."""
+    est, eft, lst, lft = U["pert"][i]
+    if rule == 0:
+        return lst - est
+    if rule == 1:
+        return est
+    if rule == 2:
+        return M.tasks[i].default_work_amount
+    if rule == 3:
+        return -M.tasks[i].default_work_amount
+    if rule == 4:
+        return -sum(1 for s in M.tasks[i].state_record_list[:t] if int(s) == READY)
+    if rule == 5:
+        return -U["rem"][i]
+    if rule == 6:
+        return U["rem"][i]
+    return 0  # LWRPT / SWRPT: one workflow, the same key for every task
+
+
+def c11(M, ctx):
+    rule = M.run["rule"]
+    n = len(M.tasks)
+    for st in full_steps(M):
+        if not st["working"]:
+            continue
+        U, A, t = st["updated"], st["allocated"], st["t"]
+        active = [i for i in range(n) if U["tstate"][i] in (READY, WORKING) and not tspec(M, i).get("auto")]
+        for lo in active:
+            newly = [w for w in A["talloc_w"][lo] if w not in U["talloc_w"][lo]]
+            if not newly:
+                continue
+            for hi in active:
+                if hi == lo or tspec(M, hi).get("nf") or tspec(M, lo).get("nf"):
+                    continue
+                if not rule_key(M, rule, U, hi, t) < rule_key(M, rule, U, lo, t):
+                    continue
+                ctx.cover("c11:strict-priority-pair")
+                for w in newly:
+                    if eligible_worker(M, w, hi) and can_accept_worker(M, A, hi, w):
+                        ctx.fail("C11:allocation-inverts-priority")
+                        ctx.notes.setdefault("inversion", "step %d: worker %d given to task %d although task %d ranks higher under rule %d" % (t, w, lo, hi, rule))
+    ctx.nontrivial = len(full_steps(M)) >= 2
